@@ -25,7 +25,7 @@ type FuncResult struct {
 func (w *World) verifyFunc(pkg *PkgInfo, fn *ssa.Function, fc *FuncContract, label string) (res *FuncResult) {
 	x := &Exec{w: w, g: newGen(w), pkg: pkg, fn: fn, fc: fc, label: label, sites: map[ssa.Instruction]string{},
 		localM: map[*ssa.Alloc]bool{}, maxNodes: 20000, used: map[string]bool{}, inlined: map[string]bool{},
-		havocked: map[string]bool{}, inputs: map[string]string{}}
+		havocked: map[string]bool{}, inputs: map[string]string{}, plans: map[*ssa.Function]*lazyPlan{}}
 	res = &FuncResult{Func: fn.RelString(fn.Pkg.Pkg), Label: label, Gen: x.g}
 	defer func() {
 		res.Obls = x.obls
@@ -246,6 +246,12 @@ func (w *World) lemmaInstance(env *Env, lm *Lemma, args []CExpr) string {
 		cfail("lemma %s: %d args, want %d", lm.Name, len(args), len(lm.Params))
 	}
 	c := &Env{x: env.x, w: w, pkg: w.lemmaPkg[lm.Name], vars: map[string]Val{}, bound: env.bound, side: env.side}
+	if lm.Heap {
+		if env.st == nil {
+			cfail("heap-reading lemma %s applied in a pure context", lm.Name)
+		}
+		c.st = env.st
+	}
 	for i, p := range lm.Params {
 		v := env.tr(args[i])
 		pt := w.resolveType(c.pkg, p.Type)
@@ -297,7 +303,7 @@ func (w *World) ghostHyps(env *Env, stmts []CStmt, pc *pureCtx, self *Lemma) []s
 					if self.Decreases == nil {
 						cfail("recursive lemma %s without decreases", self.Name)
 					}
-					c := &Env{x: cur.x, w: w, pkg: w.lemmaPkg[lm.Name], vars: map[string]Val{}, bound: cur.bound, side: cur.side}
+					c := &Env{x: cur.x, w: w, pkg: w.lemmaPkg[lm.Name], vars: map[string]Val{}, bound: cur.bound, side: cur.side, st: cur.st}
 					for i, p := range lm.Params {
 						v := cur.tr(n.Args[i])
 						v.T = w.resolveType(c.pkg, p.Type)
@@ -373,6 +379,11 @@ func (w *World) verifyLemma(pkg *PkgInfo, lm *Lemma) (res *FuncResult) {
 	}
 	var side []string
 	env := &Env{w: w, pkg: pkg, vars: map[string]Val{}, bound: map[string]bool{}, side: &side}
+	if lm.Heap {
+		env.st = &State{heap: map[string]string{}, snaps: map[string]*State{}, formal: true}
+		env.x = w.pureExec(pkg)
+		env.x.g = g
+	}
 	var hyps []string
 	for _, p := range lm.Params {
 		t := w.resolveType(pkg, p.Type)
@@ -401,6 +412,12 @@ func (w *World) verifyLemma(pkg *PkgInfo, lm *Lemma) (res *FuncResult) {
 	// side facts apply to all obligations of the lemma
 	for _, o := range pc.obls {
 		o.Hyps = append(o.Hyps, side...)
+	}
+	if lm.Heap {
+		// the formal heap components are constants of the lemma's obligations
+		for c := range env.st.heap {
+			g.named("hp_"+c, compArraySort(c, w.compSorts[c]))
+		}
 	}
 	return
 }
@@ -439,6 +456,13 @@ func (w *World) verifySpec(pkg *PkgInfo, sf *SpecFunc) (res *FuncResult) {
 		cfail("recursive spec function %s needs a decreases clause", sf.Name)
 	}
 	env := &Env{w: w, pkg: pkg, vars: map[string]Val{}, bound: map[string]bool{}}
+	if sf.Heap {
+		env.st = &State{heap: map[string]string{}, snaps: map[string]*State{}, formal: true}
+		env.x = w.pureExec(pkg)
+		for _, c := range w.heapComps(sf) {
+			g.named("hp_"+c, compArraySort(c, w.compSorts[c]))
+		}
+	}
 	for _, p := range sf.Params {
 		t := w.resolveType(pkg, p.Type)
 		s := w.sortOf(t)
@@ -460,7 +484,7 @@ func (w *World) verifySpec(pkg *PkgInfo, sf *SpecFunc) (res *FuncResult) {
 					c.vars[p.Name] = env.tr(x.Args[i])
 				}
 				// the measure is evaluated on the callee's parameters
-				c2 := &Env{w: w, pkg: pkg, vars: map[string]Val{}, bound: env.bound}
+				c2 := &Env{w: w, pkg: pkg, vars: map[string]Val{}, bound: env.bound, st: env.st, x: env.x}
 				for _, p := range sf.Params {
 					c2.vars[p.Name] = c.vars[p.Name]
 				}
@@ -569,6 +593,16 @@ func (w *World) specDefinition(sf *SpecFunc) (def string, deps []string) {
 	env := &Env{w: w, pkg: pkg, vars: map[string]Val{}, bound: map[string]bool{}}
 	var ps []string
 	var sorts []string
+	if sf.Heap {
+		env.st = &State{heap: map[string]string{}, snaps: map[string]*State{}, formal: true}
+		env.x = w.pureExec(pkg)
+		for _, c := range w.heapComps(sf) {
+			srt := compArraySort(c, w.compSorts[c])
+			ps = append(ps, "(hp_"+c+" "+srt+")")
+			sorts = append(sorts, srt)
+			env.bound["hp_"+c] = true
+		}
+	}
 	for _, p := range sf.Params {
 		t := w.resolveType(pkg, p.Type)
 		s := w.sortOf(t)
@@ -620,6 +654,10 @@ func (w *World) autoLemmaAxiom(lm *Lemma) string {
 	pkg := w.lemmaPkg[lm.Name]
 	env := &Env{w: w, pkg: pkg, vars: map[string]Val{}, bound: map[string]bool{}}
 	var ps []string
+	if lm.Heap {
+		env.st = &State{heap: map[string]string{}, snaps: map[string]*State{}, formal: true}
+		env.x = w.pureExec(pkg)
+	}
 	for _, p := range lm.Params {
 		t := w.resolveType(pkg, p.Type)
 		s := w.sortOf(t)
@@ -640,6 +678,18 @@ func (w *World) autoLemmaAxiom(lm *Lemma) string {
 		pats = append(pats, env.tr(t).S)
 	}
 	body := simplies(sand(req...), sand(ens...))
+	if lm.Heap {
+		var hs []string
+		for c := range env.st.heap {
+			hs = append(hs, c)
+		}
+		sort.Strings(hs)
+		var hps []string
+		for _, c := range hs {
+			hps = append(hps, "(hp_"+c+" "+compArraySort(c, w.compSorts[c])+")")
+		}
+		ps = append(hps, ps...)
+	}
 	if len(pats) == 0 {
 		return fmt.Sprintf("(assert (forall (%s) %s))\n", strings.Join(ps, " "), body)
 	}
